@@ -263,6 +263,9 @@ func (h *handler) onUDP(c gnet.Conn) gnet.Action {
 
 // consumed + InboundBuffered must equal the bytes delivered by the kernel so far
 func (h *handler) checkInbound(ci *connInfo, where string) {
+	if pollOpt && h.cfg.proto == "udp" {
+		return // poll_opt serves a connected UDP socket through readUDP: datagram semantics, not a stream
+	}
 	if ci.udp || ci.closed {
 		return
 	}
@@ -275,6 +278,9 @@ func (h *handler) checkInbound(ci *connInfo, where string) {
 }
 
 func (h *handler) expectConsumed(ci *connInfo, got []byte, call string) {
+	if pollOpt && h.cfg.proto == "udp" {
+		return
+	}
 	if ci.udp || ci.closed {
 		return
 	}
